@@ -98,7 +98,7 @@ def run(prop=None, only=None, verbose=False):
                 results.append({"id": o["id"], "kind": o["kind"], "status": "skipped", "why": "pattern no longer applies"})
                 continue
             try:
-                ff, dt = runner.run_driver("dev", repo=work, tag="selftest")
+                ff, dt = runner.run_driver("dev", repo=work, tag="selftest" + os.environ.get("EVAL_SLOT", ""))
             except runner.DriverError as ex:
                 results.append({"id": o["id"], "kind": o["kind"], "status": "does-not-compile", "why": str(ex)[-300:]})
                 continue
@@ -124,7 +124,7 @@ def run(prop=None, only=None, verbose=False):
     finally:
         shutil.rmtree(scratch, ignore_errors=True)
         if not os.environ.get("SELFTEST_KEEP"):
-            shutil.rmtree(os.path.join(runner.WORK, "facts-dev-selftest"), ignore_errors=True)
+            shutil.rmtree(os.path.join(runner.WORK, "facts-dev-selftest" + os.environ.get("EVAL_SLOT", "")), ignore_errors=True)
     summ = {
         "operators": len(sel),
         "fired": sum(1 for r in results if r["status"] == "fired"),
